@@ -15,7 +15,8 @@ package main
 //     (two adjacent statements) are accepted; `binaryPool.Put(X)` is the end of X's use here and has no effect on the value;
 //   * `c.buffers = c.buffers[1:]` shifts the indices: pointer variables defined before it may not be used after it
 //     (the translator refuses);
-//   * the callback `c.cb` is a function parameter `cb : Nat → Bool → Bytes → Option GoErr`.
+//   * the callback `c.cb` has effects outside the writer (it builds and writes a frame): it is a function parameter that threads
+//     an abstract state, `cb : σ → Nat → Bool → Bytes → σ × Option GoErr`, so the order of the callbacks is part of the statement.
 //
 // Anything else makes the translator fail.
 
@@ -40,6 +41,7 @@ type fwT struct {
 	dead    map[string]bool     // pointer variables invalidated by a re-slice of c.buffers
 	ptrs    map[string]bool     // local pointer variables
 	tmp     int
+	usesCb  bool
 }
 
 func (q *fwT) bad(n ast.Node, why string) {
@@ -235,10 +237,7 @@ func (q *fwT) expr(e ast.Expr) string {
 		case "binary.BigEndian.Uint32":
 			return fmt.Sprintf("(goU32BE %s)", q.expr(x.Args[0]))
 		case "c.cb":
-			if len(x.Args) != 3 {
-				q.bad(e, "callback arity")
-			}
-			return fmt.Sprintf("(cb %s %s %s)", q.expr(x.Args[0]), q.expr(x.Args[1]), q.expr(x.Args[2]))
+			q.bad(e, "the callback outside `x = c.cb(…)` / `var x = c.cb(…)`")
 		}
 		if sel, ok := x.Fun.(*ast.SelectorExpr); ok {
 			if q.k(sel.X) == "bufptr" && len(x.Args) == 0 {
@@ -290,11 +289,15 @@ func (q *fwT) ret(vals []ast.Expr, name string) string {
 	if len(vs) > 1 {
 		v = "(" + v + ")"
 	}
+	ws := "w"
+	if q.usesCb {
+		ws = "w, st"
+	}
 	switch {
 	case q.mutates[name] && v != "":
-		return fmt.Sprintf("return (w, %s)", v)
+		return fmt.Sprintf("return (%s, %s)", ws, v)
 	case q.mutates[name]:
-		return "return w"
+		return "return (" + ws + ")"
 	case v != "":
 		return "return " + v
 	}
@@ -326,6 +329,19 @@ func (q *fwT) declare(id *ast.Ident, val string) string {
 		delete(q.dead, id.Name)
 	}
 	return fmt.Sprintf("let mut %s : %s := %s", fwIdent(id.Name), lt, val)
+}
+
+// `x = c.cb(i, eof, bytes)` / `var x = c.cb(…)`: the callback threads the outside state
+func (q *fwT) cbCall(e ast.Expr) (string, bool) {
+	c, ok := e.(*ast.CallExpr)
+	if !ok || strings.Join(strings.Fields(src(q.p, c.Fun)), "") != "c.cb" {
+		return "", false
+	}
+	if len(c.Args) != 3 {
+		q.bad(e, "callback arity")
+	}
+	q.tmp++
+	return fmt.Sprintf("let r%d := cb st %s %s %s\nst := r%d.1", q.tmp, q.expr(c.Args[0]), q.expr(c.Args[1]), q.expr(c.Args[2]), q.tmp), true
 }
 
 func (q *fwT) block(list []ast.Stmt, name string) string {
@@ -374,6 +390,10 @@ func (q *fwT) stmt(s ast.Stmt, name string) string {
 				q.bad(s, "var without initial value")
 			}
 			for i, n := range vs.Names {
+				if pre, ok := q.cbCall(vs.Values[i]); ok {
+					lines = append(lines, pre, q.declare(n, fmt.Sprintf("r%d.2", q.tmp)))
+					continue
+				}
 				lines = append(lines, q.declare(n, q.boolVal(vs.Values[i])))
 			}
 		}
@@ -426,6 +446,12 @@ func (q *fwT) stmt(s ast.Stmt, name string) string {
 				return fmt.Sprintf("w := { w with buffers := w.buffers ++ [GoFW.poolGet %s] }", q.expr(size))
 			}
 			q.bad(s, "append outside the accepted idioms")
+		}
+		if pre, ok := q.cbCall(st.Rhs[0]); ok {
+			if st.Tok == token.DEFINE {
+				return pre + "\n" + q.declare(st.Lhs[0].(*ast.Ident), fmt.Sprintf("r%d.2", q.tmp))
+			}
+			return pre + "\n" + q.assign(st.Lhs[0], fmt.Sprintf("r%d.2", q.tmp))
 		}
 		if st.Tok == token.DEFINE {
 			return q.declare(st.Lhs[0].(*ast.Ident), q.boolVal(st.Rhs[0]))
@@ -574,8 +600,9 @@ func translateFW(p *pkgInfo) string {
 			return true
 		})
 		head := "(w0 : Writer.FlateWriter)"
+		q.usesCb = usesCb
 		if usesCb {
-			head = "(cb : Nat → Bool → Bytes → Option GoErr) " + head
+			head = "{σ : Type} (cb : σ → Nat → Bool → Bytes → σ × Option GoErr) (st0 : σ) " + head
 		}
 		for _, fl := range fd.Type.Params.List {
 			for _, nm := range fl.Names {
@@ -588,8 +615,12 @@ func translateFW(p *pkgInfo) string {
 		}
 		rt := strings.Join(q.results[name], " × ")
 		switch {
+		case q.mutates[name] && rt != "" && usesCb:
+			rt = "Option (Writer.FlateWriter × σ × " + rt + ")"
 		case q.mutates[name] && rt != "":
 			rt = "Option (Writer.FlateWriter × " + rt + ")"
+		case q.mutates[name] && usesCb:
+			rt = "Option (Writer.FlateWriter × σ)"
 		case q.mutates[name]:
 			rt = "Option Writer.FlateWriter"
 		default:
@@ -597,6 +628,9 @@ func translateFW(p *pkgInfo) string {
 		}
 		var body []string
 		body = append(body, "let mut w := w0")
+		if usesCb {
+			body = append(body, "let mut st := st0")
+		}
 		if fd.Type.Results != nil {
 			for _, r := range fd.Type.Results.List {
 				for _, nm := range r.Names {
